@@ -63,6 +63,24 @@ def enum_scripts(th):
                             steps.append(st("setdl", v=v))
                         steps += [st("tick"), st(fin), st("tick"), st("tick")]
                         out.append(dict(callers=1, steps=steps, src="enum-" + fin, mode=mode, side=side, errby=errby))
+    # several callers blocked at once (the one-slot token wakes ONE of them: Close / a socket error must reach all, and k units of the
+    # resource must release min(k, callers) of them)
+    for mode in ("read", "write"):
+        for side, errby in (("client", "fail"), ("server", "fail"), ("server", "lclose")):
+            for k in (2, 3):
+                for spaced in (False, True):
+                    starts = []
+                    for i in range(k):
+                        starts.append(st("start", "r%d" % (i + 1)))
+                        if spaced:
+                            starts.append(st("tick"))
+                    for fin in ("close", "sockerr"):
+                        out.append(dict(callers=k, steps=starts + [st("tick"), st(fin), st("tick"), st("tick")], src="enum-multi-" + fin,
+                                        mode=mode, side=side, errby=errby))
+                    if errby == "fail":
+                        for j in range(1, k + 1):
+                            out.append(dict(callers=k, steps=starts + [st("arrive")] * j + [st("tick"), st("tick"), st("close"), st("tick")],
+                                            src="enum-multi-arrive", mode=mode, side=side, errby=errby))
     if not th:
         # quick tier: every third deadline script (rotating with the seed), all close / error scripts
         r = vlib.seed() % 3
